@@ -31,6 +31,14 @@ Print Assumptions c12_same_session_key.
 Theorem c12_key_length : forall priv mine remote, length (session_key priv mine remote) = 32%nat.
 Proof. intros. apply hmac_length. Qed.
 
+(* the key a node holds for a peer id is the one from the NEWEST handshake it accepted for that id, so a peer that comes
+   back under the same id with a new identity scalar (after the cool-down; inside it see C20) agrees with the node again *)
+Theorem c12_rehandshake_same_key : forall a hs peer b2, 0 <= a < two32 -> 0 <= b2 < two32 ->
+  km_current (accept_all a (hs ++ [(peer, compute_public b2)])) peer =
+  Some (session_key b2 (compute_public b2) (compute_public a)).
+Proof. exact rehandshake_same_key. Qed.
+Print Assumptions c12_rehandshake_same_key.
+
 (* the key is HMAC(SHA-256(be32(DH value)), be32(min pub) || be32(max pub)): it depends on both public keys, and
    the material determines the unordered pair of public keys *)
 Theorem c12_key_structure : forall priv mine remote,
